@@ -203,6 +203,7 @@ func (w *worker) runCase(c *gcase, soft, hard time.Duration) *caseResult {
 	}
 	out := func(s string) { res.Outcomes = append(res.Outcomes, s) }
 	ctx := context.Background()
+	hung := func() bool { return len(res.Hangs) > 0 }
 
 	// A. Parse -> PrepareQuery -> Execute, directly
 	schema := w.zoo
@@ -234,6 +235,10 @@ func (w *worker) runCase(c *gcase, soft, hard time.Duration) *caseResult {
 		}
 	}
 
+	if hung() {
+		return res // a stuck call may be spinning and allocating: the child is restarted
+	}
+
 	// B. HTTP
 	var rr *httptest.ResponseRecorder
 	if guard("HTTPHandler.ServeHTTP", func() {
@@ -258,6 +263,10 @@ func (w *worker) runCase(c *gcase, soft, hard time.Duration) *caseResult {
 		default:
 			out("http:data")
 		}
+	}
+
+	if hung() {
+		return res
 	}
 
 	// C. websocket
@@ -296,6 +305,10 @@ func (w *worker) runCase(c *gcase, soft, hard time.Duration) *caseResult {
 		}
 	}
 	sockWrites = nil
+
+	if hung() {
+		return res
+	}
 
 	// D. gateway, E. federated server
 	var q2 *graphql.Query
@@ -349,36 +362,46 @@ func TestChildWorker(t *testing.T) {
 			c := genCase(run.Rand("m1", i), i, w.zooDesc, w.gwDesc)
 			_ = os.WriteFile(path, []byte(c.text()), 0o644)
 			fmt.Println("CASE", i)
-			res := w.runCase(c, 3*time.Second, 15*time.Second)
+			res := w.runCase(c, time.Second, 10*time.Second)
 			b, _ := json.Marshal(res)
 			fmt.Println("RES " + string(b))
+			if len(res.Hangs) > 0 && i+1 < to {
+				fmt.Println("CHILD-RESTART")
+				os.Exit(0)
+			}
 		}
 		fmt.Println("BATCH-DONE")
 	case "deep":
-		k, _ := strconv.Atoi(os.Getenv("C15_DEEP"))
 		ins := deepInputs(run.Thorough())
-		if k < 0 || k >= len(ins) {
-			fmt.Println("CHILD-BROKEN bad deep index")
-			os.Exit(3)
-		}
 		w, err := newWorker()
 		if err != nil {
 			fmt.Println("CHILD-BROKEN", err)
 			os.Exit(3)
 		}
-		in := ins[k]
-		c := &gcase{Index: k, Schema: "zoo", Query: in.Query, VarsJSON: in.VarsJSON, HTTPMethod: "POST", Feats: []string{"deep:" + in.Name}}
-		if c.VarsJSON == "" {
-			c.VarsJSON = "null"
+		for _, ks := range strings.Split(os.Getenv("C15_DEEP"), ",") {
+			k, err := strconv.Atoi(ks)
+			if err != nil || k < 0 || k >= len(ins) {
+				fmt.Println("CHILD-BROKEN bad deep index", ks)
+				os.Exit(3)
+			}
+			in := ins[k]
+			c := &gcase{Index: k, Schema: "zoo", Query: in.Query, VarsJSON: in.VarsJSON, HTTPMethod: "POST", Feats: []string{"deep:" + in.Name}}
+			if c.VarsJSON == "" {
+				c.VarsJSON = "null"
+			}
+			_ = json.Unmarshal([]byte(c.VarsJSON), &c.Vars)
+			c.HTTPBody = `{"query":` + jsonString(c.Query) + `,"variables":` + c.VarsJSON + `}`
+			c.WS = []string{`{"id":"d","type":"subscribe","message":` + c.HTTPBody + `}`}
+			_ = os.WriteFile(currentInputPath(os.Getenv("C15_TAG")), []byte("deep input "+in.Name+" ("+in.How+")\n"+vlib.Trunc(c.Query, 4000)), 0o644)
+			fmt.Println("CASE", k, in.Name)
+			res := w.runCase(c, 20*time.Second, 100*time.Second)
+			b, _ := json.Marshal(res)
+			fmt.Println("RES " + string(b))
+			if len(res.Hangs) > 0 {
+				fmt.Println("CHILD-RESTART")
+				os.Exit(0)
+			}
 		}
-		_ = json.Unmarshal([]byte(c.VarsJSON), &c.Vars)
-		c.HTTPBody = `{"query":` + jsonString(c.Query) + `,"variables":` + c.VarsJSON + `}`
-		c.WS = []string{`{"id":"d","type":"subscribe","message":` + c.HTTPBody + `}`}
-		_ = os.WriteFile(currentInputPath(os.Getenv("C15_TAG")), []byte("deep input "+in.Name+" ("+in.How+")\n"+vlib.Trunc(c.Query, 4000)), 0o644)
-		fmt.Println("CASE", k, in.Name)
-		res := w.runCase(c, 20*time.Second, 100*time.Second)
-		b, _ := json.Marshal(res)
-		fmt.Println("RES " + string(b))
 		fmt.Println("BATCH-DONE")
 	default:
 		fmt.Println("CHILD-BROKEN unknown mode", mode)
@@ -392,6 +415,7 @@ func TestChildWorker(t *testing.T) {
 type childOutcome struct {
 	results  []*caseResult
 	done     bool
+	restart  bool // the child asked to be restarted after the last case (it left a stuck call behind)
 	timedOut bool
 	lastCase int
 	lastLine string // "CASE ..." line
@@ -447,6 +471,8 @@ func runChild(tag string, env []string, timeout time.Duration) *childOutcome {
 			}
 		case ln == "BATCH-DONE":
 			oc.done = true
+		case ln == "CHILD-RESTART":
+			oc.restart = true
 		}
 	}
 	if !oc.done {
@@ -464,7 +490,42 @@ func classifyPanic(query, value, topFrame string) string {
 	if topFrame == "graphql.parseSelectionSet" && strings.Contains(value, "nil pointer dereference") && inlineNoType.MatchString(query) {
 		return "parse-inline-fragment-no-type-condition"
 	}
+	if topFrame == "graphql.Flatten" && strings.Contains(value, "nil pointer dereference") {
+		// two selections with one alias below the top level, one with and one
+		// without a selection set: Flatten merges them without checking
+		return "flatten-same-alias-nil-selectionset-crash"
+	}
 	return ""
+}
+
+// classifyHang recognises the pinned "never returns" defects from the stacks
+// of the stuck goroutines.
+func classifyHang(target string, stacks []string) string {
+	all := strings.Join(stacks, "\n\n")
+	switch {
+	case strings.Contains(all, "graphql/language/parser.parseList") && strings.Contains(all, "thunder/graphql.Parse("):
+		// the pinned graphql-go parser loops forever (and allocates) on a list
+		// value whose first token after an inner '[' does not lex
+		return "parse-nested-list-lex-error-infinite-loop"
+	case blockedIn(stacks, "thunder/federation.ExecuteRequest(", "chan receive") && !strings.Contains(all, "federation.ExecuteRequest.func1"):
+		// ExecuteRequest waits for a rerunner that never ran its function
+		// because the context was already cancelled
+		return "federation-executerequest-precancelled-hang"
+	case blockedIn(stacks, "thunder/graphql.(*httpHandler).ServeHTTP(", "semacquire") && !strings.Contains(all, "ServeHTTP.func2"):
+		return "http-precancelled-hang"
+	}
+	return ""
+}
+
+// blockedIn reports whether some goroutine in state `state` has frame fn.
+func blockedIn(stacks []string, fn, state string) bool {
+	for _, g := range stacks {
+		head := strings.SplitN(g, "\n", 2)[0]
+		if strings.Contains(head, state) && strings.Contains(g, fn) {
+			return true
+		}
+	}
+	return false
 }
 
 // recordResult folds one child result into the run.
@@ -496,7 +557,7 @@ func recordResult(run *vlib.Run, batchIdx int, r *caseResult, c *gcase) {
 		w["what"] = "call neither returned nor failed and the process went quiet: " + h
 		w["stacks"] = r.HangStacks
 		w["expected"] = "the call returns an error or a value"
-		run.Violation(batchIdx, "", w)
+		run.Violation(batchIdx, classifyHang(h, r.HangStacks), w)
 	}
 	for _, u := range r.Undecided {
 		run.Inconclusive(fmt.Sprintf("m1 case %d: %s still busy at the hard deadline", r.I, u))
@@ -520,6 +581,11 @@ func runM1Batch(run *vlib.Run, batchIdx, from, to int, zooDesc, gwDesc *schemaDe
 		}
 		if oc.done {
 			return
+		}
+		if oc.restart {
+			run.Count("m1:child_restarts_after_hang", 1)
+			from = oc.lastCase + 1
+			continue
 		}
 		if oc.lastCase < 0 {
 			run.Broken(fmt.Sprintf("m1 child %s produced no case (err=%v, log %s)", tag, oc.err, oc.logPath))
